@@ -507,6 +507,45 @@ func LoopTrip(h *ssa.BasicBlock) (ssa.Value, bool) {
 	}
 	iff, ok := h.Instrs[len(h.Instrs)-1].(*ssa.If)
 	if !ok {
+		// go/ssa's lowering of `for i := range n`: the test is rotated to the end of the body — the header carries
+		// phi [0, next], the latch computes next = phi+1 and branches back on `next < B`, and the loop is entered
+		// behind `0 < B`
+		for _, in := range h.Instrs {
+			ph, isPhi := in.(*ssa.Phi)
+			if !isPhi {
+				break
+			}
+			for k, e := range ph.Edges {
+				nx, isB := e.(*ssa.BinOp)
+				if !isB || nx.Op != token.ADD || nx.X != ssa.Value(ph) {
+					continue
+				}
+				if c, isC := ConstInt(nx.Y); !isC || c != 1 {
+					continue
+				}
+				latch := h.Preds[k]
+				li, isIf := latch.Instrs[len(latch.Instrs)-1].(*ssa.If)
+				if !isIf || latch.Succs[0] != h {
+					continue
+				}
+				cmp, isCmp := li.Cond.(*ssa.BinOp)
+				if !isCmp || cmp.Op != token.LSS || cmp.X != ssa.Value(nx) {
+					continue
+				}
+				startsAtZero := false
+				for k2, e2 := range ph.Edges {
+					if k2 == k {
+						continue
+					}
+					if c, isC := ConstInt(e2); isC && c == 0 {
+						startsAtZero = true
+					}
+				}
+				if startsAtZero {
+					return cmp.Y, true
+				}
+			}
+		}
 		return nil, false
 	}
 	be, ok := iff.Cond.(*ssa.BinOp)
